@@ -59,8 +59,15 @@ type env struct {
 
 func boot() *env {
 	chain.ModernGlobals()
+	chainx.InitSessionCache(100)
 	w, o := chain.DefaultWorld(chainID, 3, 2, 2, 4)
 	wAct, _ := chain.DefaultWorld(chainID, 3, 2, 2, 4)
+	o.Mutate = func(g *chain.Genesis) {
+		g.Nodes.Params.SessionBlockFrequency = 4 // sessions of 4 blocks: claims become valid within a history
+		for i := range g.Apps.Applications {
+			g.Apps.Applications[i].StakedTokens = sdk.NewInt(10000000000) // max relays = 10000
+		}
+	}
 	g := chain.BuildGenesis(o)
 	n := chain.NewNode(g, chainID, o.GenesisTime, dbm.NewMemDB(), dbm.NewMemDB(), dbm.NewMemDB(), false)
 	n.InitChain()
@@ -85,6 +92,13 @@ func simulate(n *chain.Node, bz []byte) (uint32, string) {
 	cs := string(r.Codespace)
 	if cs == "" {
 		cs = "ok"
+	}
+	if os.Getenv("C11_DEBUG") != "" && r.Code != 0 {
+		l := r.Log
+		if len(l) > 1800 {
+			l = l[:1800]
+		}
+		fmt.Fprintf(os.Stderr, "simulate code=%d/%s log=%s\n", r.Code, cs, l)
 	}
 	return uint32(r.Code), cs
 }
@@ -275,6 +289,16 @@ func (a *actor) act(point string, i int) {
 				}
 				to0 = chainx.Balance(n, to)
 				bz, desc = freshSend(from, to, int64(1+r.Intn(100000)), a.nextEnt()), "send-valid"
+			} else if r.Chance(1, 3) {
+				// a claim: its handler needs ctx.PrevCtx (LoadLazyVersion on the context's multistore)
+				nodes := append(append([]chain.Key{}, a.e.w.Vals...), a.e.w.Servs...)
+				from := nodes[r.Intn(len(nodes))]
+				sh := int64(1)
+				if n.Height > 8 && r.Bool() {
+					sh = 5
+				}
+				bz = chain.SignTx(chainID, from, chainx.MsgClaim(from, a.e.w.Apps[r.Intn(2)], sh, int64(5+r.Intn(20)), byte(a.nextEnt())), chain.DefaultFee, a.nextEnt(), "")
+				desc = fmt.Sprintf("claim@%d", sh)
 			} else {
 				d := a.e.wAct.GenTx(r)
 				bz, desc = d.Bytes, d.Kind
